@@ -31,7 +31,7 @@ def mk(fx, np, t, codes, shape=None, dirty=False, **cfg):
     return fx.Fxp(a, bool(s), w, f, raw=True, **cfg)
 
 
-HIST = ['inplace', 'view', 'resign', 'elementwise', 'intfmt', 'fortran', 'transposed']
+HIST = ['inplace', 'view', 'resign', 'elementwise', 'intfmt', 'fortran', 'transposed', 'intval']
 
 
 def warm_up(fx, np, X):
@@ -53,6 +53,7 @@ def mk_hist(fx, np, t, codes, shape=None, mode='inplace', **cfg):
       resign      - created with the opposite signedness, resized by sign only, used, then written in place
       fortran     - a 2-D operand stored in Fortran (column-major) order      transposed - the .T view of a C-ordered 2-D operand
                     (both hold the codes in the same LOGICAL order; only the memory layout differs)
+      intval      - (n_frac <= 0) built BY VALUE from Python integers: the value type of the object is int and reads return integer arrays
       intfmt      - created from integers in the INTEGER format of the same word (n_frac = 0), resized in place to n_frac, used, written in place"""
     s, w, f = t
     scalar = isinstance(codes, int)
@@ -73,6 +74,13 @@ def mk_hist(fx, np, t, codes, shape=None, mode='inplace', **cfg):
         else:
             X = fx.Fxp(np.ascontiguousarray(a2.T), bool(s), w, f, raw=True, **cfg).T
         warm_up(fx, np, X)
+        X.reset()
+        return X
+    if mode == 'intval' and f <= 0 and w < 63:
+        vals = [c << (-f) for c in clist]
+        X = fx.Fxp(vals[0] if scalar else (np.array(vals, dtype=np.int64).reshape(shape) if shape is not None else vals), bool(s), w, f, **cfg)
+        if common.codes_of(X) != clist:
+            raise AssertionError('by-value construction from integers changed the codes')
         X.reset()
         return X
     if mode == 'resign' and w >= 2 and w < 63:
@@ -119,6 +127,16 @@ def apply(fx, np, op, X, Y, route, **kw):
         if op == 'truediv': return X / Y
         if op == 'floordiv': return X // Y
         if op == 'mod': return X % Y
+    if route == 'iop':            # in-place operator spelling: Z = X; Z += Y (X itself must stay what it was)
+        Z = X
+        if op == 'add': Z += Y
+        elif op == 'sub': Z -= Y
+        elif op == 'mul': Z *= Y
+        elif op == 'truediv': Z /= Y
+        elif op == 'floordiv': Z //= Y
+        elif op == 'mod': Z %= Y
+        else: raise ValueError(op)
+        return Z
     if route == 'function':
         fn = {'add': fxpmath.add, 'sub': fxpmath.sub, 'mul': fxpmath.mul, 'truediv': fxpmath.truediv,
               'floordiv': fxpmath.floordiv, 'mod': fxpmath.mod}[op]
@@ -126,7 +144,7 @@ def apply(fx, np, op, X, Y, route, **kw):
     if route == 'numpy':
         fn = {'add': np.add, 'sub': np.subtract, 'mul': np.multiply, 'truediv': np.true_divide,
               'floordiv': np.floor_divide, 'mod': np.mod}[op]
-        return fn(X, Y)
+        return fn(X, Y, **kw)
     raise ValueError(route)
 
 
@@ -156,13 +174,18 @@ def observe_arith(fx, np, props, op, tx, ty, cxs, cys, route='operator', sizing=
         T = None
         if target:
             T = fx.Fxp(None, bool(tfmt[0]), tfmt[1], tfmt[2], rounding=tmodes[0], overflow=tmodes[1])
-        if route == 'operator':
+        if route in ('operator', 'iop'):
             X.config.op_sizing = sizing
             X.config.op_method = method
             if target == 'out':
                 X.config.op_out = T
             elif target == 'out_like':
                 X.config.op_out_like = T
+        elif route == 'numpy':
+            if target == 'out':
+                kw['out'] = T            # np.add(x, y, out=T)
+            elif target or sizing != 'optimal':
+                raise ValueError('numpy route takes only out=')
         elif route == 'function':
             kw = {'sizing': sizing, 'method': method}
             if target == 'out':
@@ -211,7 +234,14 @@ def observe_const(fx, np, props, op, tx, cxs, const, side, ois, csizing, xmodes,
         X.config.op_input_size = ois
         X.config.const_op_sizing = csizing
         X.config.op_method = method
-        if side == 'right':
+        if side == 'inplace':
+            Z = X
+            if op == 'add': Z += cval
+            elif op == 'sub': Z -= cval
+            else: Z *= cval
+            if common.codes_of(X) != list(cxs):
+                raise AssertionError('operand modified by the in-place operator')
+        elif side == 'right':
             Z = {'add': lambda: X + cval, 'sub': lambda: X - cval, 'mul': lambda: X * cval}[op]()
         else:
             Z = {'add': lambda: cval + X, 'sub': lambda: cval - X, 'mul': lambda: cval * X}[op]()
